@@ -19,7 +19,8 @@ DEL = ['delete_vertex', 'delete_edge', 'delete_face', 'delete_cell']
 SWAP = ['swap_vertices', 'swap_edges', 'swap_faces', 'swap_cells']
 BUT = ['enable_vbu', 'enable_ebu', 'enable_fbu']
 ADDS = ['add_vertex', 'add_edge', 'add_face_v', 'add_cell_closed']
-ALLSEEDS = [0, 1, 2, 3, 4, 5, 6, 7, 8]
+ALLSEEDS = list(range(12))
+EXTRA = [9, 10, 11]            # prism, edge-sharing tets, loop edge / valence-1 face / 2-gon
 MAINSEEDS = [1, 2, 3, 4, 5, 6, 7, 8]
 
 # per property: which oracles the validator evaluates, executor options,
@@ -41,9 +42,13 @@ CHECKS = {
     'C01': dict(
         props=['C01'], opts='props=0 q=1',
         quick=[mc(2, SMALL, DEL, DEL + GC + BUT + ['add_edge', 'add_cell_closed'], Modes='ModesTwo'),
-               mc(1, MAINSEEDS, [], SWAP + ['add_face_v'] + SETS, Modes='ModesDefault'),
-               mc(2, [5, 6], DEL, SWAP + SETS, Modes='ModesDeferred', BUSets='BUOn')],
+               mc(1, MAINSEEDS + EXTRA, [], SWAP + ['add_face_v'] + SETS + DEL, Modes='ModesDefault'),
+               mc(2, [5, 6], DEL, SWAP + SETS, Modes='ModesDeferred', BUSets='BUOn'),
+               # delete, re-add on the freed halffaces, collect: the collection must not disturb the new cell
+               mc(3, [1, 5, 2], ['delete_cell', 'delete_face', 'add_cell_closed', 'add_face_v'], GC + ['enable_deferred', 'delete_cell'],
+                  Modes='ModesDeferred', BUSets='BUTwo')],
         thorough=[mc(3, MAINSEEDS, DEL + GC, DEL + GC + BUT + ['add_edge', 'add_face_v', 'add_cell_closed']),
+                  mc(4, [1, 5, 2], ['delete_cell', 'delete_face', 'add_cell_closed'], GC + ['enable_deferred', 'delete_cell'], Modes='ModesDeferred'),
                   mc(2, MAINSEEDS, DEL, SWAP + SETS)],
         sim=dict(ops=DEL + GC + ADDS + BUT + SWAP + MODE + SETS),
     ),
@@ -56,7 +61,7 @@ CHECKS = {
     'C03': dict(
         props=['C03'], opts='props=2',
         quick=[mc(2, SMALL, DEL, DEL + GC + ['add_vertex', 'add_edge', 'add_face_v', 'clear', 'enable_deferred'], BUSets='BUTwo'),
-               mc(1, MAINSEEDS, [], SWAP, Modes='ModesDefault', BUSets='BUTwo'),
+               mc(1, MAINSEEDS + EXTRA, [], SWAP + DEL, Modes='ModesDefault', BUSets='BUTwo'),
                mc(2, [5, 6], DEL, SWAP, Modes='ModesDeferred', BUSets='BUTwo')],
         thorough=[mc(3, MAINSEEDS, DEL + GC, DEL + GC + ['add_vertex', 'add_edge', 'add_face_v', 'clear', 'enable_deferred'], BUSets='BUTwo'),
                   mc(2, MAINSEEDS, DEL, SWAP, BUSets='BUTwo')],
@@ -65,6 +70,7 @@ CHECKS = {
     'C04': dict(
         props=['C04', 'C03'], opts='props=1',
         quick=[mc(3, SMALL + [3], DEL, GC + ['enable_deferred'], Modes='ModesDeferred'),
+               mc(3, [1, 5, 2], ['delete_cell', 'add_cell_closed'], GC + ['enable_deferred'], Modes='ModesDeferred', BUSets='BUTwo'),
                mc(2, [2, 4, 5, 3], DEL, ['status_gc'], BUSets='BUTwo'),
                mc(1, [2, 4], [], ['status_gc'])],
         thorough=[mc(4, MAINSEEDS, DEL, GC + ['enable_deferred'], Modes='ModesDeferred'),
@@ -74,7 +80,7 @@ CHECKS = {
     'C05': dict(
         props=['C05'], opts='props=0 q=3',
         quick=[mc(2, [2, 4, 5, 6, 3], DEL, DEL + GC, Modes='ModesTwo', BUSets='BUTwo'),
-               mc(1, MAINSEEDS, [], DEL + BUT, Modes='ModesDefault')],
+               mc(1, MAINSEEDS + EXTRA, [], DEL + BUT, Modes='ModesDefault')],
         thorough=[mc(3, MAINSEEDS, DEL, DEL + GC + ['add_cell_closed'], Modes='ModesTwo'),
                   mc(2, MAINSEEDS, DEL, BUT, Modes='ModesDefault')],
         sim=dict(ops=DEL + GC + ADDS + BUT + MODE, num=(12, 100), depth=(20, 40)),
@@ -82,8 +88,8 @@ CHECKS = {
     'C08': dict(
         props=['C08'], opts='props=0 q=4',
         quick=[mc(2, [2, 4, 5, 6], DEL, DEL + GC + ['add_face_v', 'add_edge'], Modes='ModesTwo', BUSets='BUTwo'),
-               mc(1, MAINSEEDS, [], SWAP, Modes='ModesDefault', BUSets='BUOn')],
-        thorough=[mc(3, MAINSEEDS, DEL, DEL + GC + ['add_face_v', 'add_edge'], Modes='ModesTwo', BUSets='BUTwo'),
+               mc(1, MAINSEEDS + EXTRA, [], SWAP + DEL, Modes='ModesDefault', BUSets='BUOn')],
+        thorough=[mc(3, MAINSEEDS + EXTRA, DEL, DEL + GC + ['add_face_v', 'add_edge'], Modes='ModesTwo', BUSets='BUTwo'),
                   mc(2, MAINSEEDS, DEL, SWAP, Modes='ModesTwo', BUSets='BUOn')],
         sim=dict(ops=DEL + GC + ADDS + SWAP + MODE, num=(12, 100), depth=(20, 40)),
     ),
@@ -97,16 +103,16 @@ CHECKS = {
     ),
     'C10': dict(
         props=['C10'], opts='props=0 q=16',
-        quick=[mc(2, [2, 4, 5, 6, 3], DEL, DEL + GC, Modes='ModesTwo', BUSets='BUOn'),
-               mc(1, MAINSEEDS, [], ['add_face_v', 'add_edge'] + SWAP, Modes='ModesDefault', BUSets='BUOn')],
+        quick=[mc(2, [2, 5, 6], DEL, DEL + GC, Modes='ModesTwo', BUSets='BUOn'),
+               mc(1, [3, 4, 7], [], ['add_face_v', 'add_cell_closed'] + DEL, Modes='ModesDefault', BUSets='BUOn')],
         thorough=[mc(3, MAINSEEDS, DEL, DEL + GC + ['add_face_v', 'add_edge', 'add_cell_closed'], Modes='ModesTwo', BUSets='BUOn')],
         sim=dict(ops=DEL + GC + ADDS + SWAP + MODE, BUSets='BUOn', num=(12, 100), depth=(20, 40)),
     ),
     'C11': dict(
         props=['C11', 'C08'], opts='props=0',
-        quick=[mc(1, [1, 4, 6], [], ['add_edge', 'add_face'], MaxList=3),
-               mc(1, [1, 5], [], ['add_cell'], Modes='ModesDefault', MaxList=4),
-               mc(2, [1, 2, 6], DEL, ['add_edge', 'add_cell_closed', 'add_face_v'], MaxList=3)],
+        quick=[mc(1, [1, 6], [], ['add_edge', 'add_face'], Modes='ModesDefault', BUSets='BUTwo', MaxList=3),
+               mc(1, [1, 5], [], ['add_cell'], Modes='ModesDefault', BUSets='BUTwo', MaxList=4),
+               mc(2, [2, 4, 6], DEL, ['add_edge', 'add_cell_closed', 'add_face_v'], Modes='ModesTwo', MaxList=3)],
         thorough=[mc(2, [1, 4, 6], DEL, ['add_edge', 'add_face'], MaxList=3),
                   mc(2, [1, 2, 5], ['delete_cell'], ['add_cell'], Modes='ModesDefault', MaxList=4)],
         sim=None,
@@ -120,7 +126,7 @@ CHECKS = {
     ),
     'C17': dict(
         props=['C17', 'C03', 'C01'], opts='props=2',
-        quick=[mc(1, MAINSEEDS, [], SWAP, Modes='ModesDefault'),
+        quick=[mc(1, MAINSEEDS + EXTRA, [], SWAP, Modes='ModesDefault'),
                mc(2, [5, 6, 1], DEL, SWAP, Modes='ModesDeferred', BUSets='BUTwo')],
         thorough=[mc(2, MAINSEEDS, DEL, SWAP, Modes='ModesTwo'),
                   mc(3, [5, 6], DEL + ['add_cell_closed'], SWAP, Modes='ModesDeferred')],
@@ -195,6 +201,67 @@ def extra_c08(work, variant, cov, failures):
                 break
 
 
+def run_tests_traced(cfg, work, cov, failures, crashes, drifts):
+    """Trace source T: the repository's own unit tests, built against the hooked
+    library and linked with harness/tracer.cc; every outermost mutator call the
+    suite makes on a small mesh is validated like any other recorded step."""
+    import subprocess, glob
+    vlib.build('plain', ['unittests_traced'])
+    d = os.path.join(work, 'ut')
+    os.makedirs(d)
+    for f in glob.glob(os.path.join(vlib.REPO, 'src', 'Unittests', 'TestFiles', '*')):
+        shutil.copy(f, d)
+    raw = os.path.join(d, 'trace.raw')
+    env = dict(os.environ, VERIF_TRACE_OUT=raw)
+    r = subprocess.run([vlib.exe('plain', 'unittests_traced')], cwd=d, env=env, stdout=subprocess.PIPE,
+                       stderr=subprocess.STDOUT, text=True, timeout=1800)
+    cov['repo_tests_exit'] = r.returncode
+    if not os.path.exists(raw):
+        raise MachineryError('traced unit tests wrote no trace:\n' + r.stdout[-2000:])
+    lines = [l for l in open(raw).read().splitlines() if l.startswith('{"e":"pre"') or l.startswith('{"e":"call"')]
+    # split at pre lines into shards
+    nsh = vlib.NCPU
+    pairs = []
+    for l in lines:
+        if l.startswith('{"e":"pre"'):
+            pairs.append([l])
+        elif pairs:
+            pairs[-1].append(l)
+    shards = [pairs[i::nsh] for i in range(nsh)]
+    props = [p for p in cfg['props']] + ['STEP']
+    def one(i):
+        if not shards[i]:
+            return None
+        rp = os.path.join(d, 't-%02d.raw' % i)
+        with open(rp, 'w') as fo:
+            for pr in shards[i]:
+                fo.write('\n'.join(pr) + '\n')
+            fo.write('{"e":"end","x":0}\n')
+        mg = os.path.join(d, 't-%02d.ndjson' % i)
+        vlib.munge(rp, mg)
+        return (mg, vlib.run_validate(mg, props, work))
+    from concurrent.futures import ThreadPoolExecutor
+    with ThreadPoolExecutor(max_workers=vlib.NCPU) as ex:
+        res = [x for x in ex.map(one, range(nsh)) if x]
+    nchk = nbad = ndr = 0
+    for mg, v in res:
+        nchk += v['done']['checked']; nbad += v['done']['bad']; ndr += v['done']['drift']
+        tl = None
+        for b in v['bads']:
+            if tl is None:
+                tl = open(mg).read().splitlines()
+            try:
+                path, _ = vlib.path_of_line(tl, b['line'])
+            except Exception:
+                path = []
+            failures.append(dict(msg='T:' + b['msg'], path=path, script='', x=0, model=True,
+                                 detail='repository test-suite trace, line %d of %s\n%s' % (b['line'], mg, tl[b['line'] - 1][:3000])))
+    log('%s T: %d mutator calls of the repository\'s tests validated, %d bad, %d drift' % (cfg.get('name', ''), nchk, nbad, ndr))
+    cov['traces_validated_against_impl'] += nchk
+    cov['repo_test_calls_validated'] = nchk
+    cov['drift_lines'] += ndr
+
+
 def run_check(prop, tier, seed, replay=None):
     t0 = time.time()
     cfg = CHECKS[prop]
@@ -248,6 +315,8 @@ def run_check(prop, tier, seed, replay=None):
             cov['drift_lines'] += agg['drift']
         if prop == 'C08':
             extra_c08(work, variant, cov, failures)
+        if tier == 'thorough' or prop in ('C01', 'C02'):
+            run_tests_traced(cfg, work, cov, failures, crashes, drifts)
         sim = cfg.get('sim')
         if sim:
             ti = 0 if tier == 'quick' else 1
